@@ -223,6 +223,31 @@ opts_ob("opts_env_x_names", 0, 1, 0x15, "quick", 600)
 opts_ob("opts_env_x_token", 1, 1, 0x04, "thorough", 3000)
 opts_ob("opts_names_x_2tokens", 2, 0, 0x7f, "thorough", 3000)
 
+# ------------------------------------------------------------------------------- compress.c scheduler
+COMP_ASM = ["codec entry points (collect/encode/transmit) replaced by contract stubs; collect consumes an arbitrary non-empty prefix",
+            "pthread primitives are no-ops; the scheduler lock is owned by the harness",
+            "RG steps: the state at every lock acquisition is arbitrary subject to the monitor invariant INV of h_compress.c (rely); C12 (all shared state accessed under the lock) is assumed"]
+def comp_ob(name, entry, props, bounds, funcs, wit, unwind=12, to=600, real_heap=False, **kw):
+    add(name, "h_compress.c", entry, props, cbmc=["--unwind", str(unwind)], backend="kissat", timeout=to, mem_gb=8, object_bits=10,
+        extra_src=[("process.c", ["-include", "/verif/harness/proc_rename.h"])] if real_heap else [], defines=["-DREAL_HEAP"] if real_heap else [],
+        functions=funcs + (["src/process.c:up_heap", "src/process.c:down_heap"] if real_heap else []) + ["src/process.h:pqueue macros"], bounds=bounds,
+        assumptions=COMP_ASM + ([] if real_heap else ["up_heap()/down_heap() replaced by a bag with correct head extraction in this query (order inside the queue is irrelevant to the invariant); the real helpers are checked by heap_ops"]),
+        witnesses=wit, **kw)
+comp_ob("stream_frame", "h_stream_frame", {"C02": "quick", "C03": "quick", "C18": "quick", "C11": "quick", "C01": "quick"},
+        "two streams in one process, levels 1..9 each, 1..3 blocks per stream with arbitrary CRCs arriving at the reorder queue in any rotation",
+        ["src/compress.c:init", "src/compress.c:uninit", "src/compress.c:write_header", "src/compress.c:write_trailer", "src/compress.c:can_reorder", "src/compress.c:do_reorder", "src/encode.h:combine_crc"],
+        ["blocks_arrive_out_of_order", "second_stream_written"], real_heap=True)
+RGP = {"C11": "quick", "C13": "quick", "C03": "quick"}
+RGB = "worker count symbolic 1..3 (slot totals 2w / 2w+2), all counters, queue sizes and queue contents arbitrary subject to INV; one task execution with re-havoc at every lock release"
+comp_ob("rg_transmit", "h_rg_transmit", RGP, RGB, ["src/compress.c:can_transmit", "src/compress.c:do_transmit"], ["transmit_enabled", "transmit_on_reserved_slot"])
+comp_ob("rg_reorder", "h_rg_reorder", RGP, RGB, ["src/compress.c:can_reorder", "src/compress.c:do_reorder"], ["reorder_enabled"])
+comp_ob("rg_collect", "h_rg_collect", RGP, RGB, ["src/compress.c:can_collect", "src/compress.c:do_collect"], ["collect_enabled", "input_block_split"])
+comp_ob("rg_write_complete", "h_rg_write_complete", RGP, RGB, ["src/compress.c:on_write_complete"], ["write_completes"])
+comp_ob("rg_input_avail", "h_rg_input_avail", RGP, RGB, ["src/compress.c:on_input_avail"], ["input_block_arrives"])
+comp_ob("terminate_guard", "h_terminate_guard", {"C11": "quick"}, RGB, ["src/compress.c:can_terminate"], ["terminates"])
+comp_ob("heap_ops", "h_heap_ops", {"C11": "quick", "C03": "quick", "C10": "quick"}, "binary heap of <=5 elements with arbitrary positions satisfying the heap order; one insertion or one removal",
+        [], ["heap_insert", "heap_remove"], real_heap=True)
+
 # ------------------------------------------------------------------------------- expand.c block-level checks
 EXP_ASM = ["codec entry points (parse/scan/retrieve/decode/emit) replaced by contract stubs", "scheduler lock and I/O threads stubbed (single-threaded query); heap helpers replaced by a bag with correct head extraction (real helpers: heap_ops)"]
 add("reorder_checks", "h_expand.c", "h_reorder_checks", {"C05": "quick", "C15": "quick", "C07": "quick", "C06": "quick"}, cbmc=["--unwind", "20"], backend="kissat", timeout=300, mem_gb=6,
@@ -235,3 +260,21 @@ add("parse_finish", "h_expand.c", "h_parse_finish", {"C05": "quick", "C07": "qui
     witnesses=["fatal_error_reported", "end_inside_a_padded_word_accepted", "garbage_word_given_back"],
     bounds="last input block of 1..2 words with 0..3 padding bytes; parser start word, stop position (0..15 bits left) and garbage count (0/16/32) symbolic",
     assumptions=EXP_ASM + ["parse() stub: consumes all available words, leaves <16 bits, reports FINISH with the given garbage count"])
+
+# ------------------------------------------------------------------------------- C08: the same harnesses with CBMC's UB checks on
+import copy as _copy
+_UB_BASES = ["delta_window", "delta_start", "tree_symbol_L5_W2_A5", "emit_crc_n4", "parse_nw3_blk1", "parse_nw3_ecrc2", "parse_nw3_stream1",
+             "collect_len1_m9_all", "collect_len2_m6_rs3", "collect_inline_L5_s0f", "collect_inline_L5_s07", "xread_fill", "xwrite_short",
+             "reorder_checks", "parse_finish", "heap_ops", "rg_transmit", "rg_collect", "rg_reorder", "dfa_big", "sniff"]
+_UB_QUICK = ["delta_window", "delta_start", "tree_symbol_L5_W2_A5", "parse_nw3_blk1", "collect_len1_m9_all", "collect_inline_L5_s07", "xread_fill", "xwrite_short",
+             "reorder_checks", "parse_finish", "heap_ops", "rg_transmit", "rg_collect", "rg_reorder", "dfa_big", "sniff"]
+for _o in list(OBLIGATIONS):
+    if _o.name in _UB_BASES:
+        _u = _copy.copy(_o)
+        _u.name = _o.name + "_ub"
+        _u.ub = True
+        _u.props = {"C08": "quick" if _o.name in _UB_QUICK else "thorough"}
+        _u.timeout = 900
+        _u.bounds = _o.bounds + "; run with CBMC's standard checks (array bounds, pointer validity incl. use after free, signed overflow, undefined shifts, division by zero) in addition to the functional assertions"
+        _u.outside = list(_o.outside) + ["pointer-overflow (forming an out-of-bounds pointer without dereferencing it) is not checked", "decisions on uninitialised memory are visible only as functional failures of the twin obligation"]
+        OBLIGATIONS.append(_u)
